@@ -852,3 +852,28 @@ def shrink(case):
         if 0 <= m2 < m:
             res.append(make_case(d, args, m2, tags))
     return res
+
+
+def check(tier, seed, replay=None):
+    """standard flow, except that an invocation reported as (hang)/(abort)/(missing) is run once more in a fresh
+    harness process before it is believed: under heavy machine load the driver's stall timer fires for whole
+    batches at once although every case answers in milliseconds.  A real hang is deterministic and hangs again
+    (and is then judged `bad hang`)."""
+    import types
+    from vlib import core, flow
+    plugin = types.SimpleNamespace(**{k: v for k, v in globals().items() if not k.startswith("__") and k != "check"})
+    orig = core.run_impl
+
+    def run_impl_retry(mode, cases, exe=None, stall=30.0, workers=None):
+        res = orig(mode, cases, exe=exe, stall=stall, workers=workers)
+        again = [c for c in cases if not res.get(c["id"], "(missing)").startswith("(fsm")]
+        if again:
+            core.log("[C17] re-running %d invocation(s) that gave no answer" % len(again))
+            res.update(orig(mode, again, exe=exe, stall=stall, workers=workers))
+        return res
+
+    core.run_impl = run_impl_retry
+    try:
+        return flow.standard_check(plugin, tier, seed, replay)
+    finally:
+        core.run_impl = orig
